@@ -121,6 +121,19 @@ impl SyntaxPattern {
                                     for (var, multi_match) in multi_matches_substitutions {
                                         substitutions.get_mut(&var).unwrap().1.push(multi_match.0);
                                     }
+                                } else {
+                                    // not an instance of the repeated sub-pattern: the run ends before this
+                                    // item (it must not be dropped silently)
+                                    return Self::match_datum_stream(
+                                        pattern_index + 1,
+                                        datum_index,
+                                        depth,
+                                        patterns,
+                                        datums,
+                                        pattern_literals,
+                                        substitutions,
+                                        None,
+                                    );
                                 }
                                 if Self::match_datum_stream(
                                     pattern_index,
